@@ -725,15 +725,10 @@ func rulePruneGate(c *Ctx, r *Reporter) {
 		if !f.Val {
 			continue
 		}
-		if phi, ok := f.Cond.(*ssa.Phi); ok && phi.Comment == "tableInitialized" {
+		// the gate: a boolean local whose `true` originates in the select case on the init watch
+		if phi, ok := f.Cond.(*ssa.Phi); ok && boolPhiTrueFromInitWatch(phi) {
 			gated = true
 			initVar = phi
-		}
-		if a, ok := isLoad(f.Cond); ok {
-			if al, ok := a.(*ssa.Alloc); ok && al.Comment == "tableInitialized" {
-				gated = true
-				initVar = al
-			}
 		}
 	}
 	r.check(gated, "reconciler.(reconciler).reconcileLoop|prune only when initialized", c.posStr(instrPos(p)), "r.prune is dominated by tableInitialized == true", "Operations.Prune can run while the table still has pending initializers: it is given partial contents and deletes live objects from the target")
@@ -825,4 +820,46 @@ func isInitWatch(v ssa.Value, seen map[ssa.Value]bool) bool {
 		}
 	}
 	return false
+}
+
+// boolPhiTrueFromInitWatch: some `true` constant flowing into the phi comes
+// from the select case that receives from Table.Initialized()'s channel.
+func boolPhiTrueFromInitWatch(phi *ssa.Phi) bool {
+	seen := map[*ssa.Phi]bool{}
+	found := false
+	var walk func(ph *ssa.Phi)
+	walk = func(ph *ssa.Phi) {
+		if seen[ph] {
+			return
+		}
+		seen[ph] = true
+		for i, e := range ph.Edges {
+			switch x := e.(type) {
+			case *ssa.Phi:
+				walk(x)
+			case *ssa.Const:
+				if x.Value == nil || x.Value.String() != "true" {
+					continue
+				}
+				pred := ph.Block().Preds[i]
+				fs := factsAt(pred)
+				if f, ok := edgeFactOn(pred, ph.Block()); ok {
+					fs = append(fs, f)
+				}
+				for _, f := range fs {
+					if bo, ok := f.Cond.(*ssa.BinOp); ok && bo.Op == token.EQL && f.Val {
+						if ex, ok := bo.X.(*ssa.Extract); ok {
+							if sel, ok := ex.Tuple.(*ssa.Select); ok {
+								if k, ok := constInt(bo.Y); ok && int(k) < len(sel.States) && isInitWatch(sel.States[k].Chan, map[ssa.Value]bool{}) {
+									found = true
+								}
+							}
+						}
+					}
+				}
+			}
+		}
+	}
+	walk(phi)
+	return found
 }
